@@ -34,7 +34,9 @@ META = {
     "C12": dict(level="proof",
                 text="The evaluation log as a data structure against an abstract view: well-formedness invariant, new-record / no-record / growth clauses stated over the "
                      "whole view (every other row of every array unchanged), discharged for all log states and arguments.",
-                note=PROOF_NOTE + " Rows beyond Xn being NaN and the specified-noise merge arithmetic are not yet part of the proved clauses (merge: see known findings / DESIGN)."),
+                note=PROOF_NOTE + " Not part of the proved clauses: the arithmetic of the specified-noise merge (precision-weighted mean, combined SD) - checked by the bounded "
+                     "reference-model layer only; that unused rows never equal a point (NaN is not modelled for the log) is an assumed clause backed by a syntactic obligation "
+                     "(every allocation / growth of the log arrays fills with NaN)."),
     "C17": dict(level="proof",
                 text="Postconditions of the candidate filter for all candidate arrays, boxes, tolerances and logs: inside the box it was filtered against, feasible, "
                      "pairwise distinct. The 'not already evaluated' clause is a recorded known finding (the code keeps evaluated points; pinned by an existing test).",
